@@ -307,6 +307,37 @@ pub struct AckStats {
 fn hold_intervals(ex: &Execution, stamps: &dyn Fn(usize) -> Vec<Ev>) -> Vec<(usize, u128, u64, u64)> {
     let mut out = Vec::new();
     let n_threads = ex.log.iter().map(|r| r.thread + 1).max().unwrap_or(0);
+    // Is the order map observable at all?  An implementation that keeps its orders in some other
+    // container reports no map insert / remove although orders are added and taken: then nothing
+    // is known about who holds what, and any match call may be holding any order (a set-aside
+    // order is named in no transaction) for as long as it runs.
+    let map_events = (0..n_threads)
+        .map(|t| stamps(t).iter().filter(|e| matches!(e.op, Op::MapInsert | Op::MapRemove)).count())
+        .sum::<usize>();
+    // (a match or an amend on the real containers always leaves a map event as soon as there is an
+    // order to look at; with none at all, the few executions where really nothing was touched lose
+    // nothing by the conservative reading)
+    let map_activity = ex.log.iter().any(|r| matches!(r.op, COp::Match { .. } | COp::Amend { .. }));
+    if map_events == 0 && map_activity {
+        let mut ids: HashSet<u128> = ex.prog.preload.iter().map(|o| model::key(&model::id_of(o))).collect();
+        for r in &ex.log {
+            if let COp::Add(o) = &r.op {
+                ids.insert(model::key(&model::id_of(o)));
+            }
+        }
+        for r in &ex.log {
+            match (&r.op, &r.res) {
+                (COp::Match { .. }, _) => {
+                    for k in &ids {
+                        out.push((r.thread, *k, r.call, r.ret));
+                    }
+                }
+                (COp::Amend { id, .. }, CRes::Updated(Ok(Some(_)))) => out.push((r.thread, model::key(id), r.call, r.ret)),
+                _ => {}
+            }
+        }
+        return out;
+    }
     for t in 0..n_threads {
         let evs = stamps(t);
         for r in ex.log.iter().filter(|r| r.thread == t) {
@@ -443,7 +474,12 @@ pub fn ack_truthful(ex: &Execution, st: &mut AckStats) -> (Vec<String>, u64) {
                         Some((_, e)) => holds
                             .iter()
                             .any(|(t, k, s1, s2)| *t != r.thread && *k == id && *s1 < e.seq && e.seq < *s2),
-                        None => false,
+                        // the call's own lookup was not reported (the map is reached through
+                        // something the wrappers do not hook): any hold window of another
+                        // thread that overlaps the call is taken as the explanation
+                        None => holds
+                            .iter()
+                            .any(|(t, k, s1, s2)| *t != r.thread && *k == id && *s1 < r.ret && r.call < *s2),
                     }
                 } else if !ex.e2_events.is_empty() {
                     // E2 with stamped map events: every event carries a stamp taken before and one
@@ -461,10 +497,15 @@ pub fn ack_truthful(ex: &Execution, st: &mut AckStats) -> (Vec<String>, u64) {
                             }
                         }
                     }
-                    !misses.is_empty()
-                        && misses
+                    if misses.is_empty() {
+                        holds
+                            .iter()
+                            .any(|(t, k, h0, h1)| *t != r.thread && *k == id && *h0 < r.ret && r.call < *h1)
+                    } else {
+                        misses
                             .iter()
                             .all(|(m0, m1)| holds.iter().any(|(t, k, h0, h1)| *t != r.thread && *k == id && h0 <= m1 && m0 <= h1))
+                    }
                 } else {
                     // E2 (no event log): only a match, or an amend of the same order, issued by
                     // another thread can hold the order out of the map; if no such call overlaps
